@@ -361,6 +361,9 @@ func TestC16(t *testing.T) {
 		}
 	}
 	for _, iso := range isos {
+		if rep.OverBudget() {
+			break
+		}
 		sl, rl, skip, enc := iso.SLabel, iso.RLabel, iso.Skip, iso.Enc
 		{
 			{
